@@ -521,6 +521,9 @@ def to_model(data_file: typing.IO, _config = None, progress_callback=lambda _: N
 
       current_p.set_region(_get_or_make_region(doc, cue_params[3:]))
 
+      div.push_child(current_p)
+      subtitle_text = ""
+
       state = _State.TEXT
 
       continue
@@ -534,10 +537,6 @@ def to_model(data_file: typing.IO, _config = None, progress_callback=lambda _: N
 
         state = _State.LOOKING
         continue
-
-      if state is _State.TEXT:
-        div.push_child(current_p)
-        subtitle_text = ""
 
       subtitle_text += line
 
